@@ -47,6 +47,10 @@ FIRST_LOOK = {  # recorded when the seed was first run, before any rule was touc
  "C28-10": "missed", "C28-11": "missed", "C28-12": "missed",
  "C13-10": "caught", "C13-11": "caught", "C13-12": "caught",
  "C06-10": "missed", "C06-11": "missed", "C06-12": "missed",
+ "C04-10": "false alarm only (R04a did not see that a helper hands its argument on to a method that sets the flag; corrected)", "C04-11": "false alarm only (R04a did not see the `result != argument` idiom; corrected)", "C04-12": "caught",
+ "C07-10": "missed by C07 (C10's R10d: unknown-shape alarm)", "C07-11": "caught", "C07-12": "missed",
+ "C11-10": "missed", "C11-11": "caught", "C11-12": "caught",
+ "C01-10": "missed by C01, caught by C04", "C01-11": "missed by C01, caught by C07", "C01-12": "missed by C01, caught by C05 (with the wrong reason: R05f did not see through the predicate helper; corrected)",
  "C10-10": "missed", "C10-11": "missed", "C10-12": "unknown-shape alarm only (a false one: R10e took `Pos{}` in reset() for state; corrected)",
 }
 def key(d):
